@@ -239,6 +239,20 @@ func checkC09(c *Ctx, w *World) {
 					if caseBlock := selectCaseBlock(sel, si); caseBlock != nil && (caseBlock == r.Block() || caseBlock.Dominates(r.Block())) {
 						isDone = true
 					}
+					// … or, on conditions: this exit, when the slot was not seen READY, implies that the context-done case was
+					// the one chosen (the case may only have set a flag that is tested afterwards)
+					var selIdx ssa.Value
+					for _, rf := range *sel.Referrers() {
+						if ex, isE := rf.(*ssa.Extract); isE && ex.Index == 0 {
+							selIdx = ex
+						}
+					}
+					if !isDone && selIdx != nil {
+						dcs := newCondSpace(rr, recOf(eqAtom("ready", isState, constIs(pl.Ready)), eqAtom("ctxCase", isVal(selIdx), constIs(int64(si)))), "ready", "ctxCase")
+						if imp2, _ := dcs.Implies(dcs.And(dcs.Reach(r), dcs.Not(dcs.Atom("ready"))), dcs.Atom("ctxCase")); imp2 && dcs.Seen("ctxCase") {
+							isDone = true
+						}
+					}
 				}
 			}
 		}
